@@ -53,10 +53,11 @@ theorem LinesOf.flatten {om : Bool} {α : Type} (xs : List α) (f : α → List 
     simp only [List.map_cons, List.flatten_cons, List.flatMap_cons]
     exact (h x (by simp)).append (ih (fun y hy => h y (by simp [hy])))
 
-/-- hypotheses on a family for OpenMetrics: its name is not an F2 name, the type is one of `METRIC_TYPES`, the unit
-(written raw — finding F4) is a clean token, every sample is fine -/
+/-- hypotheses on a family for OpenMetrics: the type is one of `METRIC_TYPES`, numbers are number tokens
+(preconditions), and — the one hypothesis that excludes a known finding — the unit, which is written raw (F4), is
+empty or a clean token.  Nothing is assumed about any name, help text, label or exemplar label. -/
 def familyOKOM (f : Family) : Bool :=
-  !f2Name metricNameRe f.name && PromVerif.Generated.Ctor.metricTypes.contains f.typ &&
+  PromVerif.Generated.Ctor.metricTypes.contains f.typ &&
     (f.unit.isEmpty || unitTok f.unit) && f.samples.all sampleOKOM
 
 /-- the kinds of line OpenMetrics owes a family -/
@@ -84,8 +85,8 @@ theorem mapM_samples (fam : Family) (ss : List Sample) (out : List Str)
 
 theorem om_familyLines_ok (fam : Family) (fl : List Str) (h : OMExpo.familyLines fam = .ok fl)
     (hok : familyOKOM fam = true) : LinesOf true fl (omKinds fam) := by
-  simp only [familyOKOM, Bool.and_eq_true, Bool.not_eq_true', Bool.or_eq_true, List.all_eq_true] at hok
-  obtain ⟨⟨⟨hn, ht⟩, hu⟩, hs⟩ := hok
+  simp only [familyOKOM, Bool.and_eq_true, Bool.or_eq_true, List.all_eq_true] at hok
+  obtain ⟨⟨ht, hu⟩, hs⟩ := hok
   have htyp := munge_type_ok fam.typ (by simpa using ht)
   unfold OMExpo.familyLines at h
   cases h2 : fam.samples.mapM (OMExpo.sampleLine fam) with
@@ -97,11 +98,11 @@ theorem om_familyLines_ok (fam : Family) (fl : List Str) (h : OMExpo.familyLines
     have hhelp : LineOf true .help ("# HELP ".toList ++ escapeMetricName fam.name ++ [' '] ++ escape fam.doc ++ ['\n']) := by
       refine ⟨_, rfl, ?_⟩
       simp only [List.append_assoc, List.cons_append, List.nil_append]
-      exact classify_help true fam.name _ hn (escape_noLF fam.doc)
+      exact classify_help true fam.name _ (escape_noLF fam.doc)
     have htype : LineOf true .type ("# TYPE ".toList ++ escapeMetricName fam.name ++ [' '] ++ fam.typ ++ ['\n']) := by
       refine ⟨_, rfl, ?_⟩
       simp only [List.append_assoc, List.cons_append, List.nil_append]
-      exact classify_type true fam.name _ hn (by simpa using htyp.2)
+      exact classify_type true fam.name _ (by simpa using htyp.2)
     unfold omKinds
     by_cases hue : fam.unit.isEmpty = true
     · have hu0 : fam.unit = [] := by simpa using hue
@@ -116,7 +117,7 @@ theorem om_familyLines_ok (fam : Family) (fl : List Str) (h : OMExpo.familyLines
       have hunit : LineOf true .unit ("# UNIT ".toList ++ escapeMetricName fam.name ++ [' '] ++ fam.unit ++ ['\n']) := by
         refine ⟨_, rfl, ?_⟩
         simp only [List.append_assoc, List.cons_append, List.nil_append]
-        exact classify_unit fam.name _ hn hut
+        exact classify_unit fam.name _ hut
       have hu1 : fam.unit ≠ [] := by simpa using hue
       simp only [hue, Bool.false_eq_true, if_false]
       simpa [List.append_assoc, hu1] using
